@@ -161,7 +161,13 @@ func serializeVariableRecords(epoch time.Time, intervalsPerDay uint32, wtSet *wa
 		// last 4 byte of each record is an intervalTick
 		intervalTicks := io.ToUInt32(buf[len(buf)-IntervalTicksBytes:])
 		// expand intervalTicks(32bit) to Epoch and Nanosecond
-		_, nanosecond := executor.GetTimeFromTicks(uint64(epoch.Unix()), intervalsPerDay, intervalTicks)
+		second, nanosecond := executor.GetTimeFromTicks(uint64(epoch.Unix()), intervalsPerDay, intervalTicks)
+		// the record's own second: an interval can be longer than a second
+		secBytes, err2 := io.Serialize(nil, int64(second))
+		if err2 != nil {
+			return nil, errors.Wrap(err2, "failed to serialize the record's second to buffer:"+epoch.String())
+		}
+		copy(buf[cursor-EpochBytes:cursor], secBytes)
 		// replace intervalTick with Nanosecond
 		buf, err = io.Serialize(buf[:len(buf)-IntervalTicksBytes], int32(nanosecond))
 		if err != nil {
